@@ -252,7 +252,11 @@ func (pdb *PebbleKV) BulkWrite(u func(tx kvi.KVBulkWrite) error) error {
 	batch := pdb.db.NewBatch()
 	ptx := &pebbleBulkWrite{pdb.db, batch, nil, nil, 0}
 	err := u(ptx)
-	batch.Commit(nil)
+	if err != nil {
+		batch.Close()
+		return err
+	}
+	err = batch.Commit(nil)
 	batch.Close()
 	if ptx.lowest != nil && ptx.highest != nil {
 		pdb.db.Compact(ptx.lowest, ptx.highest, true)
